@@ -144,9 +144,9 @@ package transport
 //@ ensures result.Requests[0].Snapshot.Membership.ConfigChangeId == chunk.Membership.ConfigChangeId && result.Requests[0].Snapshot.Membership.Addresses == chunk.Membership.Addresses && result.Requests[0].Snapshot.Membership.NonVotings == chunk.Membership.NonVotings && result.Requests[0].Snapshot.Membership.Witnesses == chunk.Membership.Witnesses && result.Requests[0].Snapshot.Membership.Removed == chunk.Membership.Removed
 //@ ensures ptr(result.Requests[0].Snapshot.Files) == ptr(files) && len(result.Requests[0].Snapshot.Files) == len(files)
 //@ func (c *Chunk) reset [C15]
-//@ requires c.tracked != nil && held(c.mu) == 0
-//@ modifies held(c.mu), entries(c.tracked)
-//@ ensures !(key in c.tracked) && held(c.mu) == 0
+//@ requires c.tracked != nil
+//@ modifies entries(c.tracked)
+//@ ensures !(key in c.tracked)
 //@ ensures forall k string :: k != key ==> (k in c.tracked) == old(k in c.tracked) && c.tracked[k] == old(c.tracked[k])
 
 //@ func (c *Chunk) addLocked [C15 C14 C16]
@@ -215,3 +215,38 @@ package transport
 //@ func (j *job) sendChunks [C15]
 //@ noframe
 //@ nobounds
+
+// ---------------------------------------------------------------- the timeout collector and Close (C15)
+// From the property: a stream with a lost or corrupt chunk never finalizes "and its temporary directory is
+// removed by the timeout collector". A stream leaves the table here only together with the temporary
+// directory of the sender that started it; the collector drops nothing it has not cleaned up.
+//@ func (c *Chunk) getTracked [C15]
+//@ noframe
+//@ requires c.tracked != nil
+//@ modifies held(c.mu)
+//@ ensures result != nil && fresh(result)
+//@ ensures forall k string :: (k in result) == (k in c.tracked) && (k in c.tracked ==> result[k] == c.tracked[k])
+//@ loop 1 invariant fresh(m) && (forall k string :: (k in m) == (k in c.tracked && visited(k)) && (k in m ==> m[k] == c.tracked[k]))
+//@ func (c *Chunk) getSnapshotLock [C15]
+//@ trusted per-stream lock table (lookup or create)
+//@ ensures result != nil
+//@ func (l *ssLock) lock [C15]
+//@ trusted per-stream lock
+//@ func (l *ssLock) unlock [C15]
+//@ trusted per-stream lock
+//@ func (c *Chunk) getTick [C15]
+//@ trusted reads the logical clock
+//@ func (c *Chunk) gc [C15]
+//@ noframe
+//@ nobounds
+//@ requires c.tracked != nil
+//@ modifies entries(c.tracked), gTmpRemovedFrom, gTmpRemovedCalls, held(c.mu)
+//@ loop 1 invariant c.tracked != nil && (forall k string :: k in tracked && !visited(k) ==> k in c.tracked && c.tracked[k] == tracked[k])
+//@ loop 1 step !(key in c.tracked) ==> td != nil && gTmpRemovedFrom == td.first.From
+//@ func (c *Chunk) Close [C15]
+//@ noframe
+//@ nobounds
+//@ requires c.tracked != nil
+//@ modifies entries(c.tracked), gTmpRemovedFrom, gTmpRemovedCalls, held(c.mu)
+//@ loop 1 invariant c.tracked != nil && (forall k string :: k in tracked && !visited(k) ==> k in c.tracked && c.tracked[k] == tracked[k])
+//@ loop 1 step !(key in c.tracked) && gTmpRemovedFrom == td.first.From
